@@ -19,6 +19,8 @@ __all__ = [
     'RULE_C12', 'cases_C12', 'oracle_C12', 'classify_C12', 'smoke_C12',
     'RULE_C13', 'cases_C13', 'oracle_C13', 'classify_C13', 'smoke_C13',
     'RULE_C15', 'cases_C15', 'oracle_C15', 'classify_C15', 'smoke_C15',
+    'RULE_C18', 'cases_C18', 'oracle_C18', 'classify_C18', 'smoke_C18',
+    'RULE_C19', 'cases_C19', 'oracle_C19', 'classify_C19', 'smoke_C19',
 ]
 
 _VENV_PY = os.path.join(core.VERIF, '.venv', 'bin', 'python')
@@ -933,7 +935,7 @@ RULE_C15 = (
     'reindent_aligned, strip_whitespace, strip_comments, use_space_around_operators, keyword_case=upper, '
     'output_format=python, reindent+strip_comments+keyword_case.  Nesting kinds: parentheses, brackets, CASE, '
     'function calls, subqueries, unclosed "(", unclosed "[", BEGIN..END blocks, mixed "(f([".  quick: depths 50, 300, '
-    '1000, 5000 x recursion limits 200 and 400, and depths 50, 100 with limit 1000 (a case costs many seconds '
+    '1000, 5000 x recursion limits 200 and 300, and depths 50, 100 with limit 1000 (a case costs many seconds '
     'once the tree grows some hundred levels deep before the limit is hit): every (entry, kind) pair once with '
     '(depth, limit) assigned round-robin, parse and format(reindent) x 4 kinds with every (depth, limit), plus seeded '
     'extras (about 190 cases).  thorough: full product over depths 50..20000 x limits 200, 400 and depths <= 1000 x '
@@ -1088,7 +1090,7 @@ def oracle_C15(case):
 def cases_C15(tier, seed):
     # cost note: a case costs seconds once the tree gets a few hundred levels deep before the limit is hit
     # (TokenList.__init__ serialises every new group), so limit 1000 is combined with small depths in the quick tier
-    pairs = [(d, l) for d in _C15_DEPTHS for l in (200, 400)] + [(50, 1000), (100, 1000)]
+    pairs = [(d, l) for d in _C15_DEPTHS for l in (200, 300)] + [(50, 1000), (100, 1000)]
     if tier != 'quick':
         pairs = [(d, l) for d in (50, 100, 300, 1000, 5000, 20000) for l in (200, 400)] + \
                 [(d, 1000) for d in (50, 100, 300, 1000)]
@@ -1128,4 +1130,454 @@ def smoke_C15():
         ('split', (), 'unclosed', 5000, 200),
         ('format', (('strip_whitespace', True),), 'func', 100, 1000),
         ('parsestream', (), 'subquery', 50, 1000),
+    ]
+
+
+# ======================================================================================================== C18
+
+RULE_C18 = (
+    'Exhaustive product of: every word typed Keyword.DML / Keyword.DDL in the dictionaries of sqlparse.keywords '
+    '(read from the tables at generation time) plus CREATE OR REPLACE with four inner-whitespace spellings '
+    'x casing (upper, lower, capitalised, alternating) x 19 leading trivia (blanks, line ends, block / line / '
+    'hash / hint comments, comments containing keywords, several comments) x 24 continuations (nothing, blank, '
+    'TAB, LF, CRLF, ";", number, "* from t", "(1)", " (1)", ".x", " .5", "*", ",", quoted literal, "[1]", "=1", "+1", '
+    'comment glued to the keyword ...; never one that extends the word).  WITH statements: 11 shapes of CTE '
+    'definitions (one / two CTEs, column list, RECURSIVE, MATERIALIZED, quoted name, comments, nested WITH, glued '
+    'parenthesis) x following word (SELECT INSERT UPDATE DELETE MERGE -> that word; foo, VALUES -> UNKNOWN) x casing '
+    'x trivia subset.  Other first words (21: EXPLAIN, SHOW, SET, BEGIN, names, number, string, "(" ...) -> '
+    "UNKNOWN, with continuations free of DML/DDL words.  Expected value: ' '.join(keyword.upper().split()) when "
+    'the tables type the (first) word DML/DDL, computed from the tables not from the lexer.')
+
+_C18_TRIVIA = ('', ' ', '\n', '\t  ', '\r\n', '\n\n', '/* c */', '/* c */ ', '-- c\n', ' -- c\n  /* d */\n', '/*+ h */ ',
+               '# c\n', '--\n', '/* select */ ', '-- insert into\n', '/* a */ /* b */ ', '/* a */\n/* b */\n',
+               '-- a\n-- b\n', '--+ h\n')
+_C18_CONT = ('', ' ', '\t', '\n', '\r\n', ';', ' 1', '\n1', '\t1', ' * from t', ' x, y from t where z = 1', '(1)', ' (1)',
+             '.x', ' .5', ' 1.5', ' -1', '*', ',', "'a'", ' "a"', '[1]', '=1', '+1', '/* c */1', '--c\n1', ' /* c */ 1',
+             '@x')
+_C18_CASINGS = ('upper', 'lower', 'capitalize', 'mixed')
+_C18_CTE_DEFS = (' x AS (select 1) ', ' x AS (select 1), y AS (select 2) ', ' x (a, b) AS (select 1, 2) ',
+                 ' RECURSIVE x AS (select 1 union all select 2) ', '\nx\nAS\n(select 1)\n', ' "x" AS (select 1) ',
+                 ' x AS (select 1)', ' /* c */ x AS (select 1) /* d */ ', ' x AS MATERIALIZED (select 1) ',
+                 ' x AS (with y as (select 1) select * from y) ', ' x as (select 1) , y as (select 2)\n')
+_C18_CTE_NEXT = (('SELECT', ' * from x'), ('SELECT', ' 1'), ('SELECT', '\n1'), ('INSERT', ' into t select * from x'),
+                 ('UPDATE', ' t set a = 1'), ('DELETE', ' from t'), ('MERGE', ' into t using x on 1 = 1'), ('foo', ' bar'),
+                 ('VALUES', ' (1)'))
+_C18_OTHER = ('EXPLAIN', 'SHOW', 'SET', 'BEGIN', 'GRANT', 'CALL', 'USE', 'DECLARE', 'VALUES', 'ANALYZE', 'FROM', 'WHERE',
+              'END', 'IF', 'foo', 'x1', '業者', '1', "'s'", '(', '"select"')
+_C18_OTHER_CONT = ('', ' ', ';', ' 1', ' * from t', '\nx', '(1)', '.x', ' x = 1')
+_C18_DICTS = ('KEYWORDS_COMMON', 'KEYWORDS_ORACLE', 'KEYWORDS_MYSQL', 'KEYWORDS_PLPGSQL', 'KEYWORDS_HQL',
+              'KEYWORDS_MSACCESS', 'KEYWORDS_SNOWFLAKE', 'KEYWORDS_BIGQUERY', 'KEYWORDS')
+
+
+def _c18_table_type(word):
+    """type of a word according to the keyword dictionaries (documented lookup order), None if not listed"""
+    from sqlparse import keywords as K
+    w = word.upper()
+    for name in _C18_DICTS:
+        d = getattr(K, name, None)
+        if d and w in d:
+            return d[w]
+    return None
+
+
+def _c18_dml_ddl_words():
+    from sqlparse import keywords as K, tokens as T
+    out = []
+    names = list(_C18_DICTS) + sorted(n for n in dir(K) if n.startswith('KEYWORDS') and n not in _C18_DICTS)
+    for name in names:
+        d = getattr(K, name, None)
+        if isinstance(d, dict):
+            for k in sorted(d):
+                if d[k] in (T.Keyword.DML, T.Keyword.DDL) and k not in out and _c18_table_type(k) is d[k]:
+                    out.append(k)
+    return out
+
+
+def _c18_recase(w, how):
+    if how == 'capitalize':
+        return w[:1].upper() + w[1:].lower()
+    return _recase(w, how)
+
+
+def oracle_C18(case):
+    try:
+        from sqlparse import tokens as T
+        leading, keyword, casing, cont = case
+        kw = _c18_recase(keyword, casing)
+        words = keyword.upper().split()
+        collapsed = ' '.join(words)
+        if isinstance(cont, tuple):
+            if cont[0] != 'cte' or collapsed != 'WITH':
+                return None
+            _, defs, dml, rest = cont
+            text = leading + kw + defs + _c18_recase(dml, casing) + rest
+            expected = dml.upper() if _c18_table_type(dml) is T.Keyword.DML else 'UNKNOWN'
+        else:
+            text = leading + kw + cont
+            if collapsed == 'CREATE OR REPLACE':
+                expected = collapsed
+            elif len(words) == 1 and words[0].isalpha() and _c18_table_type(words[0]) in (T.Keyword.DML, T.Keyword.DDL):
+                expected = collapsed
+            elif collapsed == 'WITH':
+                return None
+            else:
+                expected = 'UNKNOWN'
+    except Exception:
+        return None
+    try:
+        import sqlparse
+        stmts = sqlparse.parse(text)
+        if not stmts:
+            observed = 'UNKNOWN'      # no statement at all: nothing to type
+        else:
+            observed = stmts[0].get_type()
+    except Exception as e:
+        return {'what': _exc(e), 'input': text, 'observed': _clip(str(e)), 'expected': expected}
+    if observed != expected:
+        if expected == 'UNKNOWN':
+            what = 'typed-but-unknown-expected'
+        elif observed == 'UNKNOWN':
+            what = 'unknown-for-keyword'
+        elif ' '.join(str(observed).split()) == expected:
+            what = 'inner-whitespace-kept'
+        else:
+            what = 'wrong-type'
+        return {'what': what, 'input': text, 'observed': observed, 'expected': expected}
+    return None
+
+
+def cases_C18(tier, seed):
+    words = _c18_dml_ddl_words() + ['CREATE OR REPLACE', 'CREATE  OR   REPLACE', 'CREATE\nOR\tREPLACE', 'CREATE OR\r\nREPLACE']
+    for kw in words:
+        for cs in _C18_CASINGS:
+            for lead in _C18_TRIVIA:
+                for cont in _C18_CONT:
+                    yield (lead, kw, cs, cont)
+    trivia = _C18_TRIVIA if tier != 'quick' else _C18_TRIVIA[:10]
+    for defs in _C18_CTE_DEFS:
+        for dml, rest in _C18_CTE_NEXT:
+            for cs in _C18_CASINGS:
+                for lead in trivia:
+                    yield (lead, 'WITH', cs, ('cte', defs, dml, rest))
+    for w in _C18_OTHER:
+        for cs in _C18_CASINGS:
+            for lead in trivia:
+                for cont in _C18_OTHER_CONT:
+                    yield (lead, w, cs, cont)
+
+
+def classify_C18(case, failure):
+    return None
+
+
+def smoke_C18():
+    return [
+        ('', 'SELECT', 'lower', ' 1'),
+        ('/* c */ ', 'INSERT', 'mixed', ' into t values (1)'),
+        ('-- c\n', 'CREATE OR REPLACE', 'lower', ' view v as select 1'),
+        ('\n', 'DROP', 'upper', ';'),
+        (' ', 'WITH', 'lower', ('cte', ' x AS (select 1), y AS (select 2) ', 'DELETE', ' from t')),
+        ('', 'EXPLAIN', 'upper', ' x'),
+        ('', 'WITH', 'upper', ('cte', ' x AS (select 1) ', 'foo', ' bar')),
+    ]
+
+
+# ======================================================================================================== C19
+
+RULE_C19 = (
+    "Library half, case (text, 'lib'): the results of parse (tree as plain data), parsestream, split, format() and "
+    'format(reindent=True) for the str are compared with the results for: bytes + encoding for every encoding of '
+    '{utf-8, latin-1, gbk, cp1251, utf-16} that can represent the text, UTF-8 bytes without encoding, '
+    'io.StringIO, a TextIOWrapper over the UTF-8 bytes; and for every encoding of {latin-1, gbk, cp1251} whose '
+    'bytes are not valid UTF-8: bytes without encoding must give the result of the Latin-1 reading of those '
+    'bytes.  Texts: fixed list (empty, blanks, lone delimiters, unclosed quotes / comments, NUL, CR / CRLF, '
+    'backslashes next to non-ASCII, Latin-1 / Cyrillic / CJK literals, names and comments), grammar scripts with '
+    'non-ASCII names joined by varying separators, token soups with non-ASCII fragments.  '
+    "CLI half, case (text, ('cli', flags, input channel, output channel, encoding)): the text is written to a file "
+    'in a fresh temp dir (or piped to stdin with "-"), `python -m sqlparse` runs in a child with the flags, the bytes '
+    'on stdout (PYTHONIOENCODING = the encoding) or in the -o file must equal format(text, **options(flags)) '
+    'encoded (the universal-newline reading of the text is accepted too); exit status 0.  22 flag combinations '
+    '(-r, -a, -s, -k, -i, -l, --strip-comments, --indent_width, --wrap_after, --comma_first, --indent_columns, '
+    '--indent_after_first, --compact and pairs / triples) x 5 (text, channels, encoding) assignments each in the '
+    'quick tier (110 cases, spread between the library cases), all combinations in the thorough tier.')
+
+_C19_ENCODINGS = ('utf-8', 'latin-1', 'gbk', 'cp1251', 'utf-16')
+_C19_FIXED = [
+    '', ' ', '\n', '\r\n', ';', ';;', 'select 1', 'select 1;', "select 'é'", 'select "naïve" from 業者',
+    "select 'Привет' from т where ю = 1", "select '你好' as 問候", 'select 1;\r\nselect 2;\r\n', "select '\\n\xe9'",
+    "select 'a\\' , 'é'", 'select \x00 from t', '-- комментарий\nselect 1', '/* é */ select 1',
+    "select 'it''s' ; insert into t values ('ü')", 'select "unclosed é', "select 'unclosed é", '/* unclosed é',
+    'select\t1\r2', "sélect * from t where a = 'ß'", 'select \xa0 1', "select 'C:\\temp\\é'", "select '\\u00e9 é'",
+    "select '\\x4' , 'ÿ'", 'select a -- ü\n from t', "select 'Ã©'", 'create table "Ünï" (ä int, ö text)',
+    'select * from t where a like \'%é%\' order by ü desc', "insert into т values ('я', 1); select 2", '\ufeffselect 1',
+    'select \ud800', "select '𝒳'", 'select 1 /* 業 */ from t; -- 者\nselect 2',
+]
+_C19_SOUP = ['select', 'from', 'where', 'é', "'ü'", '"ß"', '業者', 'т', "'я'", ';', ',', '(', ')', '1', 'a', '\\', "'\\n'",
+             '-- é\n', '/* ü */', '=', '\r\n', 'order by', 'ÿ', '\xa0', "'", '"', '`ö`', 'join', 'as', '$é$', '0x1F']
+_C19_FLAGS = (
+    (), ('-r',), ('-a',), ('-s',), ('-k', 'upper'), ('-i', 'lower'), ('-l', 'python'), ('--strip-comments',),
+    ('-r', '--indent_width', '4'), ('-r', '--wrap_after', '20'), ('-r', '--comma_first', 'True'), ('-r', '--indent_columns'),
+    ('-r', '--indent_after_first'), ('-r', '--compact', 'True'), ('-r', '-k', 'upper'), ('-a', '-k', 'lower'),
+    ('-s', '--strip-comments'), ('-r', '-s', '-i', 'upper'), ('-k', 'capitalize', '-i', 'capitalize'),
+    ('-r', '--strip-comments', '-k', 'upper'), ('-l', 'php', '-r'), ('-a', '-s', '--strip-comments'),
+)
+_C19_CLI_TEXTS = (
+    'select a, b from t where x = 1 and y = 2; insert into t values (1, 2);\n',
+    'select a+b as c, /* note */ d from t -- tail\nwhere a=1 order by c',
+    "select 'é', \"naïve\" from tàble where ü = 'ß' -- café\n",
+    "select 'Привет', ю from т where я = 1; /* комментарий */ update т set ю = 2\n",
+    "select '你好' as 問候, 業者 from 表 where 名 = '者'\n",
+    'select case when a = 1 then b else c end, f(x, y) from t1 join t2 on t1.id = t2.id group by a having count(*) > 1',
+    '', 'select 1',
+)
+
+
+def _c19_results(mk, encoding):
+    """results of the five calls for one input form; mk() makes a fresh argument (streams are consumed)"""
+    import sqlparse
+    out = []
+    for name in ('parse', 'parsestream', 'split', 'format', 'format_reindent'):
+        try:
+            arg = mk()
+            if name == 'parse':
+                r = [_plain_tree(s) for s in sqlparse.parse(arg, encoding)]
+            elif name == 'parsestream':
+                r = [_plain_tree(s) for s in sqlparse.parsestream(arg, encoding)]
+            elif name == 'split':
+                r = list(sqlparse.split(arg, encoding))
+            elif name == 'format':
+                r = sqlparse.format(arg, encoding=encoding)
+            else:
+                r = sqlparse.format(arg, encoding=encoding, reindent=True)
+        except Exception as e:
+            r = ('raised', type(e).__name__)
+        out.append((name, r))
+    return out
+
+
+def _c19_opts(flags):
+    opts = {}
+    i = 0
+    flags = list(flags)
+    simple = {'-r': 'reindent', '-a': 'reindent_aligned', '-s': 'use_space_around_operators',
+              '--strip-comments': 'strip_comments', '--indent_columns': 'indent_columns',
+              '--indent_after_first': 'indent_after_first'}
+    valued = {'-k': ('keyword_case', str), '-i': ('identifier_case', str), '-l': ('output_format', str),
+              '--indent_width': ('indent_width', int), '--wrap_after': ('wrap_after', int),
+              '--comma_first': ('comma_first', bool), '--compact': ('compact', bool)}
+    while i < len(flags):
+        f = flags[i]
+        if f in simple:
+            opts[simple[f]] = True
+            i += 1
+        elif f in valued:
+            name, conv = valued[f]
+            opts[name] = conv(flags[i + 1])
+            i += 2
+        else:
+            raise ValueError(f)
+    return opts
+
+
+def _c19_cli(text, kind):
+    import shutil
+    import tempfile
+    import sqlparse
+    _, flags, inch, outch, enc = kind
+    try:
+        data = text.encode(enc)
+        if data.decode(enc) != text:
+            return None
+        opts = _c19_opts(flags)
+    except Exception:
+        return None
+    translated = text.replace('\r\n', '\n').replace('\r', '\n')
+    try:
+        accepted = []
+        for t in (text, translated):
+            e = sqlparse.format(t, **opts).encode(enc)
+            if e not in accepted:
+                accepted.append(e)
+    except Exception:
+        return None   # format itself fails on this text/options: nothing to compare the front end with (C07)
+    tmp = tempfile.mkdtemp(prefix='pyvc_c19_')
+    try:
+        argv = [_python(), '-m', 'sqlparse'] + list(flags)
+        stdin = None
+        if inch == 'file':
+            fn = os.path.join(tmp, 'input.sql')
+            with open(fn, 'wb') as f:
+                f.write(data)
+            argv.append(fn)
+        else:
+            argv.append('-')
+            stdin = data
+        argv += ['--encoding', enc]
+        outfn = os.path.join(tmp, 'out.sql')
+        if outch == 'outfile':
+            argv += ['-o', outfn]
+        env = dict(os.environ)
+        env['PYTHONPATH'] = core.REPO
+        env['PYTHONIOENCODING'] = enc
+        env.pop('PYTHONSTARTUP', None)
+        try:
+            p = subprocess.run(argv, input=stdin if stdin is not None else b'', capture_output=True, timeout=120,
+                               env=env, cwd=tmp)
+        except subprocess.TimeoutExpired:
+            return {'what': 'cli-timeout', 'input': (text, kind), 'observed': 'no result', 'expected': 'output'}
+        shown = (text, kind)
+        if p.returncode != 0:
+            return {'what': 'cli-exit:%d' % p.returncode, 'input': shown,
+                    'observed': _clip(p.stderr.decode('utf-8', 'replace')[-300:]), 'expected': 'exit status 0'}
+        if outch == 'outfile':
+            try:
+                with open(outfn, 'rb') as f:
+                    got = f.read()
+            except OSError as e:
+                return {'what': 'cli-no-outfile', 'input': shown, 'observed': str(e), 'expected': 'output file'}
+            if p.stdout:
+                return {'what': 'cli-stdout-with-outfile', 'input': shown, 'observed': _clip(p.stdout), 'expected': b''}
+        else:
+            got = p.stdout
+        if got not in accepted:
+            return {'what': 'cli-output', 'input': shown, 'observed': _clip(got, 200), 'expected': _clip(accepted[0], 200)}
+        return None
+    finally:
+        shutil.rmtree(tmp, ignore_errors=True)
+
+
+def oracle_C19(case):
+    import io
+    try:
+        text, kind = case
+        if not isinstance(text, str):
+            return None
+    except Exception:
+        return None
+    if isinstance(kind, tuple) and kind and kind[0] == 'cli':
+        try:
+            return _c19_cli(text, kind)
+        except Exception as e:
+            return {'what': 'cli-' + _exc(e), 'input': (text, kind), 'observed': _clip(str(e)), 'expected': 'cli run'}
+    if kind != 'lib':
+        return None
+    try:
+        base = _c19_results(lambda: text, None)
+        forms = []
+        for enc in _C19_ENCODINGS:
+            try:
+                b = text.encode(enc)
+                if b.decode(enc) != text:
+                    continue
+            except (UnicodeError, LookupError):
+                continue
+            forms.append(('bytes+' + enc, (lambda b=b: b), enc, base))
+            if enc == 'utf-8':
+                forms.append(('utf8-bytes-no-encoding', (lambda b=b: b), None, base))
+                forms.append(('TextIOWrapper', (lambda b=b: io.TextIOWrapper(io.BytesIO(b), encoding='utf-8', newline='')),
+                              None, base))
+            elif enc != 'utf-16':
+                try:
+                    b.decode('utf-8')
+                except UnicodeDecodeError:
+                    as_latin1 = b.decode('latin-1')
+                    want = base if as_latin1 == text else _c19_results(lambda: as_latin1, None)
+                    forms.append(('non-utf8-bytes-no-encoding(%s)' % enc, (lambda b=b: b), None, want))
+        forms.append(('StringIO', (lambda: io.StringIO(text)), None, base))
+        for name, r in base:
+            if name == 'parsestream' and r != dict(base)['parse']:
+                return {'what': 'parsestream-vs-parse', 'input': text, 'observed': _clip(r, 200),
+                        'expected': _clip(dict(base)['parse'], 200)}
+        for label, mk, enc, want in forms:
+            got = _c19_results(mk, enc)
+            for (name, g), (_, w) in zip(got, want):
+                if g != w:
+                    return {'what': '%s:%s' % (label, name), 'input': text, 'observed': _clip(g, 200),
+                            'expected': _clip(w, 200)}
+    except Exception as e:
+        return {'what': 'oracle-' + _exc(e), 'input': text, 'observed': _clip(str(e)), 'expected': 'comparison'}
+    return None
+
+
+def _c19_cli_cases(tier):
+    texts = _C19_CLI_TEXTS
+    chans = [('file', 'stdout'), ('file', 'outfile'), ('stdin', 'stdout'), ('stdin', 'outfile')]
+    encs = ('utf-8', 'latin-1', 'gbk', 'cp1251')
+    combos = []
+    for t in texts:
+        for e in encs:
+            try:
+                t.encode(e)
+            except UnicodeError:
+                continue
+            for c in chans:
+                combos.append((t, c, e))
+    if tier != 'quick':
+        for fl in _C19_FLAGS:
+            for t, c, e in combos:
+                yield (t, ('cli', fl, c[0], c[1], e))
+        return
+    k = 0
+    for fl in _C19_FLAGS:
+        for _ in range(5):
+            t, c, e = combos[(k * 37) % len(combos)]
+            k += 1
+            yield (t, ('cli', fl, c[0], c[1], e))
+
+
+def cases_C19(tier, seed):
+    from pyvc.domain import SEPARATORS, render
+    rnd = random.Random(seed * 977 + 19)
+    cli = list(_c19_cli_cases(tier))
+    n_lib = 5000 if tier == 'quick' else 60000
+    every = max(1, n_lib // (len(cli) + 1))
+    count = 0
+
+    def lib():
+        for t in _C19_FIXED:
+            yield t
+        for t in _C19_CLI_TEXTS:
+            yield t
+        seps = [s for s in SEPARATORS if s] + [' -- é\n', ' /* 業 */ ']
+        for _ in range(n_lib * 6 // 10):
+            g = Grammar(seed=rnd.randrange(1 << 30), max_depth=rnd.choice((1, 2)), kw_case=rnd.choice(('upper', 'lower')))
+            parts = []
+            for j in range(rnd.choice((1, 1, 2, 3))):
+                lex = g.plain_stmt()
+                if rnd.random() < 0.5:
+                    lex = [("'%s'" % rnd.choice(('é', 'ü ß', 'Привет', '你好', 'a\\b', 'ÿ'))) if x in ("'s'", "''") else x
+                           for x in lex]
+                parts.append(render(lex, rnd, seps=seps if rnd.random() < 0.3 else (' ',), glue=rnd.random() < 0.5))
+            yield rnd.choice((';', '; ', ';\n', ';\r\n')).join(parts) + rnd.choice(('', ';', '\n', ';\r\n'))
+        for _ in range(n_lib * 4 // 10):
+            k = rnd.randint(1, 7)
+            sp = rnd.choice((' ', ' ', '', '\n'))
+            yield sp.join(rnd.choice(_C19_SOUP) for _ in range(k))
+
+    ci = 0
+    for t in lib():
+        yield (t, 'lib')
+        count += 1
+        if count % every == 0 and ci < len(cli):
+            yield cli[ci]
+            ci += 1
+    while ci < len(cli):
+        yield cli[ci]
+        ci += 1
+
+
+def classify_C19(case, failure):
+    return None
+
+
+def smoke_C19():
+    return [
+        ('select 1', 'lib'),
+        ("select 'é' from \"naïve\"; select 2", 'lib'),
+        ("select 'Привет' from т", 'lib'),
+        ("select '你好' as 問候\r\nfrom t", 'lib'),
+        ('', 'lib'),
+        ('select a, b from t where x = 1', ('cli', ('-r',), 'file', 'stdout', 'utf-8')),
+        ("select 'é' from t", ('cli', ('-k', 'upper'), 'stdin', 'outfile', 'latin-1')),
+        ("select 'Привет', ю from т", ('cli', ('-r', '-k', 'upper'), 'file', 'outfile', 'cp1251')),
     ]
